@@ -1221,6 +1221,42 @@ def ob_native_energy(stress, law, dt, nstep):
 
 # ---------------------------------------------------------------- build
 
+def ob_fibre_shapes():
+    """Holzapfel-Ogden with one fibre direction constant and the other given as a per-point field (either way round): energy, stress and tangent are those of the law with both
+    directions given as (constant) fields"""
+    import contextlib, io
+    from EasyFEA import ElemType, MatrixType, Models
+    from EasyFEA.Geoms import Domain
+    from EasyFEA.FEM import FeArray
+    from EasyFEA.Models.HyperElastic._state import HyperElasticState
+    HO = dict(C0=1.2, C1=2.0, C2=3.0, C3=2.5, C4=1.5, C5=1.8, C6=0.9, C7=1.3, K=60.0, Mu1=1.0, Mu2=0.5, ks=100.0)
+    with contextlib.redirect_stdout(io.StringIO()):
+        mesh = Domain((0, 0), (1, 1), 0.5).Mesh_Extrude([], [0, 0, 1], [2], ElemType.HEXA8, isOrganised=True)
+    ge = mesh.groupElem
+    rng = np.random.default_rng(0)
+    u = rng.standard_normal(mesh.Nn * 3) * 0.02
+    state = HyperElasticState(ge, u, MatrixType.rigi)
+    Ne, nPg, _ = state._GetDims()
+    t1, t2 = np.array([2.0, 1.0, 2.0]) / 3, np.array([-2.0, 2.0, 1.0]) / 3
+    fld = lambda t: FeArray.asfearray(np.tile(t, (Ne, nPg, 1)))
+    ref = Models.HyperElastic.HolzapfelOgden(3, T1=fld(t1), T2=fld(t2), **HO)
+    want = [np.asarray(f(state)) for f in (ref.Compute_W, ref.Compute_dWde, ref.Compute_d2Wde)]
+    n = 0
+    for tag, T1, T2 in (("constant T1, field T2", t1, fld(t2)), ("field T1, constant T2", fld(t1), t2), ("both constant", t1, t2)):
+        try:
+            mat = Models.HyperElastic.HolzapfelOgden(3, T1=T1, T2=T2, **HO)
+            got = [np.asarray(f(state)) for f in (mat.Compute_W, mat.Compute_dWde, mat.Compute_d2Wde)]
+        except Exception as ex:
+            raise Refuted(f"HolzapfelOgden with {tag}: {type(ex).__name__}: {ex}", cex=dict(fibres=tag), signature="fibres:shapes:raises", replay=dict(confirmed=True, raised=repr(ex)[:200]))
+        for nm, a, b in zip(("W", "dWde", "d2Wde"), got, want):
+            n += 1
+            e = float(np.abs(a - b).max() / (np.abs(b).max() + 1e-300))
+            if a.shape != b.shape or e > 1e-12:
+                raise Refuted(f"HolzapfelOgden with {tag}: {nm} differs from the law with both directions given as fields by {e:.3e}", cex=dict(fibres=tag, quantity=nm), signature="fibres:shapes:value",
+                              replay=dict(confirmed=True, rel_err=e))
+    return Verdict(DISCHARGED, backend="native", sub=n)
+
+
 def build(tier, seed):
     obs = []
     thorough = tier == "thorough"
@@ -1274,6 +1310,8 @@ def build(tier, seed):
                       bound=f"one cantilever, {nstep} steps", clause="KE + W constant (2e-6) in free motion", timeout=3600))
     obs.append(Ob("canary.law", ob_law_canary, (), "P", expect=REFUTED))
     obs.append(Ob("canary.operator", ob_operator_canary, (), "B", expect=REFUTED))
+    obs.append(Ob("C18.native.law.HolzapfelOgden.shapes", ob_fibre_shapes, (), "X", (f"{STATE}::HyperElasticState._Compute_Anisotropic_Invariants_First_Derivatives", f"{LAWS}::HolzapfelOgden"),
+                  bound="one 8-element HEXA8 state", clause="a constant fibre direction next to a per-point field of directions: W, stress, tangent == both given as fields"))
     return dict(
         obs=obs, level="other", min_obligations=60,
         explanation=("Invariants and kinematic operators: real HyperElasticState methods run on symbolic tensors and differentiated exactly. Laws: the extracted Compute_W / dWde / d2Wde run "
